@@ -1,6 +1,7 @@
 package tr
 
 import (
+	"os"
 	"encoding/hex"
 	"fmt"
 	"strconv"
@@ -126,10 +127,15 @@ func (o *Op) BytesList(k string) [][]byte {
 	return r
 }
 
+var debugCls = os.Getenv("VERIF_DEBUG") != ""
+
 // Emit writes the op line and the observed result.
 func (t *Trace) Emit(o *Op, res string) {
 	t.lastOp = o.Line()
 	t.lastCls = o.Cls
+	if debugCls {
+		t.w.WriteString("# cls " + o.Cls + "\n")
+	}
 	t.w.WriteString(t.lastOp)
 	t.w.WriteString("\n")
 	t.N++
